@@ -20,6 +20,7 @@ import (
 	"go/types"
 	"os"
 	"path/filepath"
+	"reflect"
 	"sort"
 	"strconv"
 	"strings"
@@ -371,6 +372,9 @@ func (r *rewriter) funcDecl(d *ast.FuncDecl) {
 	if r.on("R8") {
 		r.rewriteStdout(d.Body)
 	}
+	if r.on("R2") && r.on("R2r") {
+		r.rewriteRecvs(d.Body)
+	}
 	d.Body.List = r.stmts(d.Body.List)
 	var pre []ast.Stmt
 	if r.on("R1") && (len(d.Body.List) >= 2 || containsLoopOrCall(d.Body)) {
@@ -547,11 +551,6 @@ func (r *rewriter) stmt(s ast.Stmt) []ast.Stmt {
 		if !r.on("R2") {
 			return []ast.Stmt{s}
 		}
-		if _, ok := isRecv(s.X); ok {
-			site := r.site("recv", s.Pos())
-			h := r.fresh("h")
-			return []ast.Stmt{r.preStmt(h, site, "KRecv"), s, r.postStmt(h, site)}
-		}
 		if _, ok := isCloseCall(s.X); ok {
 			site := r.site("close", s.Pos())
 			h := r.fresh("h")
@@ -560,16 +559,6 @@ func (r *rewriter) stmt(s ast.Stmt) []ast.Stmt {
 		return []ast.Stmt{s}
 	case *ast.AssignStmt:
 		r.exprs(s)
-		if !r.on("R2") {
-			return []ast.Stmt{s}
-		}
-		for _, rhs := range s.Rhs {
-			if _, ok := isRecv(rhs); ok {
-				site := r.site("recv", s.Pos())
-				h := r.fresh("h")
-				return []ast.Stmt{r.preStmt(h, site, "KRecv"), s, r.postStmt(h, site)}
-			}
-		}
 		return []ast.Stmt{s}
 	case nil:
 		return nil
@@ -1108,4 +1097,102 @@ func (r *rewriter) fixImports() {
 	}
 	r.file.Decls = decls
 	r.file.Imports = nil
+}
+
+// ---- receive expressions -------------------------------------------------------
+
+// replaceExprs applies f to every ast.Expr slot below root (pre-order: the walk then
+// descends into the replacement).
+func replaceExprs(root ast.Node, f func(parent ast.Node, e ast.Expr) ast.Expr) {
+	exprType := reflect.TypeOf((*ast.Expr)(nil)).Elem()
+	ast.Inspect(root, func(n ast.Node) bool {
+		if n == nil {
+			return false
+		}
+		v := reflect.ValueOf(n)
+		if v.Kind() != reflect.Ptr || v.IsNil() {
+			return true
+		}
+		v = v.Elem()
+		if v.Kind() != reflect.Struct {
+			return true
+		}
+		for i := 0; i < v.NumField(); i++ {
+			fv := v.Field(i)
+			if !fv.CanSet() {
+				continue
+			}
+			switch {
+			case fv.Type() == exprType:
+				if !fv.IsNil() {
+					ne := f(n, fv.Interface().(ast.Expr))
+					fv.Set(reflect.ValueOf(&ne).Elem())
+				}
+			case fv.Kind() == reflect.Slice && fv.Type().Elem() == exprType:
+				for j := 0; j < fv.Len(); j++ {
+					ev := fv.Index(j)
+					if !ev.IsNil() {
+						ne := f(n, ev.Interface().(ast.Expr))
+						ev.Set(reflect.ValueOf(&ne).Elem())
+					}
+				}
+			}
+		}
+		return true
+	})
+}
+
+// rewriteRecvs turns every receive expression that is not the communication of a select
+// clause into verifrt.Recv / Recv2, whatever expression or statement it sits in.
+func (r *rewriter) rewriteRecvs(body *ast.BlockStmt) {
+	skip := map[*ast.UnaryExpr]bool{}
+	two := map[*ast.UnaryExpr]bool{}
+	ast.Inspect(body, func(n ast.Node) bool {
+		switch v := n.(type) {
+		case *ast.CommClause:
+			switch c := v.Comm.(type) {
+			case *ast.ExprStmt:
+				if u, ok := isRecv(c.X); ok {
+					skip[u] = true
+				}
+			case *ast.AssignStmt:
+				if len(c.Rhs) == 1 {
+					if u, ok := isRecv(c.Rhs[0]); ok {
+						skip[u] = true
+					}
+				}
+			}
+		case *ast.AssignStmt:
+			if len(v.Lhs) == 2 && len(v.Rhs) == 1 {
+				if u, ok := isRecv(v.Rhs[0]); ok {
+					two[u] = true
+				}
+			}
+		case *ast.ValueSpec:
+			if len(v.Names) == 2 && len(v.Values) == 1 {
+				if u, ok := isRecv(v.Values[0]); ok {
+					two[u] = true
+				}
+			}
+		}
+		return true
+	})
+	replaceExprs(body, func(parent ast.Node, e ast.Expr) ast.Expr {
+		u, ok := e.(*ast.UnaryExpr)
+		if !ok || u.Op != token.ARROW || skip[u] {
+			return e
+		}
+		if t := r.typeOf(u.X); t != nil {
+			if _, isChan := t.Underlying().(*types.Chan); !isChan {
+				r.skip("receive from a non-channel-typed expression left alone", u.Pos())
+				return e
+			}
+		}
+		site := r.site("recv", u.Pos())
+		fn := "Recv"
+		if two[u] {
+			fn = "Recv2"
+		}
+		return r.rtCall(fn, u.X, intLit(site))
+	})
 }
